@@ -138,13 +138,17 @@ Definition check_symbol (id : ident) (expected : symdata) : L unit :=
 Definition check_here (id : ident) : L unit :=
   s <~ lget ;; match cur_target s with Some pc => check_symbol id (DNum (usize_as_i64 pc)) | None => lret tt end.
 
+Definition set_lmacro (n : nat) : L unit :=
+  lmod (fun s => mkLS (l_scope s) (l_seg s) (l_segs s) (l_log s) n (l_bad s) (l_addrs s)).
 Definition in_scope {A} (scope : ident) (with_block : bool) (f : L A) : L A :=
   s0 <~ lget ;;
   set_lscope (l_scope s0 ++ [scope]) ;;~
+  set_lmacro 0%nat ;;~                                  (* invocations are numbered per scope (5239ce9) *)
   (if with_block then check_here t_minus else lret tt) ;;~
   r <~ f ;;
   (if with_block then check_here t_plus else lret tt) ;;~
   set_lscope (l_scope s0) ;;~
+  set_lmacro (l_macro s0) ;;~
   lret r.
 
 (* macro definitions by the static path of their definition site (and of the names they are imported under) *)
@@ -409,18 +413,9 @@ Definition relayout_once (fuel : nat) (m : fsyms) (toks : list token) (segs : li
   | LOk _ s => inl (Some (mkLR (map (fun ns => (fst ns, seg_writes (fst ns) (l_log s))) (l_segs s)) (l_bad s) (l_seg s) (l_addrs s)))
   end.
 
-(* the current segment at the start of a pass is the one the previous pass ended with: iterate to its fixed point *)
-Fixpoint relayout (iters fuel : nat) (m : fsyms) (toks : list token) (segs : list (ident * segstate)) (cur : option ident)
+(* every pass starts in the segment that was defined first (`cur`, given by the caller as the head of the final segment
+   list; repair acfe737 -- before it, a pass started in the segment the previous pass had ended with, and this function
+   iterated to that fixed point, i.e. it described the defect instead of the statement) *)
+Definition relayout (iters fuel : nat) (m : fsyms) (toks : list token) (segs : list (ident * segstate)) (cur : option ident)
   : option layout_result + nat :=
-  match relayout_once fuel m toks segs cur with
-  | inr w => inr w
-  | inl None => inl None
-  | inl (Some r) =>
-      match iters with
-      | O => inl (Some r)
-      | S k =>
-          let same := match lr_end_segment r, cur with
-                      | Some a, Some b => ident_eqb a b | None, None => true | _, _ => false end in
-          if same then inl (Some r) else relayout k fuel m toks segs (lr_end_segment r)
-      end
-  end.
+  relayout_once fuel m toks segs cur.
